@@ -17,7 +17,7 @@ RULE = ('a case = one generated config (nested mappings/lists/call arguments, un
         'length >= 2, a reference into a container or call argument, or a bad (dangling/self/cyclic) reference; '
         'distinct = distinct digest of (structure, reference graph, split)')
 ASSUMPTIONS = [
-    'termination is judged on the simulator step clock (traced line events of awesomeyaml code): budget 5000000 lines per build, about 10x the largest fault-free build of this generator (a 60-long reference chain costs ~0.5M lines because every member re-follows the chain)',
+    'termination is judged on the simulator step clock (traced line events of awesomeyaml code): budget 5000000 + 1380 * L^2 lines per build for a longest chain of L references, more than 10x the largest fault-free build of that size class (a forward chain costs ~115 * L^2 lines because every member re-follows the rest of the chain; L is at most 60, in 4% of the runs 270)',
     'reference targets are structural paths of the merged config; paths that would traverse *through* another reference are not generated (the statement does not define them)',
 ]
 TIERS = {
@@ -119,7 +119,7 @@ def generate(r, tier, index):
         _set(root, p, {'t': 'ref', 'to': r.choice(cands + ref_pos[:1] if r.random() < 0.3 else cands)})
     # a long chain c0 -> c1 -> ... -> target
     if r.random() < 0.5:
-        L = r.choice([2, 3, 5, 10, 25, 60])
+        L = r.choice([2, 3, 5, 10, 25, 60, 2, 3, 5, 10, 25, 60, 2, 3, 5, 10, 25, 60, 2, 3, 5, 10, 25, 60, 270])
         tgt = r.choice(targets) if targets else ['k0']
         order = list(range(L))
         for i in range(L):
@@ -326,6 +326,13 @@ def _navigate(cfg, path, struct, rec_objs):
     return obj, True
 
 
+def budget_for(sc):
+    """Step budget of one build: generous constant plus a term for the longest chain - every member of a forward
+    chain re-follows the rest of it, so a fault-free build of an L-chain costs about 115 * L^2 traced lines."""
+    L = max([0] + [int(k[1:]) + 1 for k, _ in sc['struct']['items'] if isinstance(k, str) and k.startswith('c') and k[1:].isdigit()])
+    return BUDGET + 12 * 115 * L * L
+
+
 def _child(sc):
     from awesomeyaml import Builder, Config
     from awesomeyaml import errors
@@ -340,7 +347,7 @@ def _child(sc):
     out = {}
 
     def client():
-        sched.begin_op('build', BUDGET)
+        sched.begin_op('build', budget_for(sc))
         try:
             b = Builder()
             for src in sources:
@@ -397,11 +404,11 @@ def execute(sc):
     res = core.ok_result()
     st = res['stats']
     bad, final = model(sc['struct'])
-    c = core.fork_call(_child, (sc,), timeout=40.0)
+    c = core.fork_call(_child, (sc,), timeout=240.0)
     live = [j['liveness'] for j in c.get('journal', []) if 'liveness' in j]
     if c['status'] == 'timeout' or (c['status'] == 'crash' and live) or (c['status'] == 'error' and live):
         if live:
-            res['violations'].append(core.violation('liveness.step_budget', f'build did not finish within {BUDGET} steps and could not be aborted: {live[0]}', graph=bad or 'acyclic'))
+            res['violations'].append(core.violation('liveness.step_budget', f'build did not finish within {budget_for(sc)} steps and could not be aborted: {live[0]}', graph=bad or 'acyclic'))
             return res
     if c['status'] != 'ok':
         res['harness'] = f'{c["status"]}: {c.get("error", c.get("signal", ""))}'
@@ -419,7 +426,7 @@ def execute(sc):
         st.setdefault('faults', {})['bad_reference:' + bad] = 1
     if v['liveness'] or v['status'] == 'timeout':
         res['violations'].append(core.violation(
-            'liveness.step_budget', f'Config build exceeded the step budget of {BUDGET} traced lines ({sc["mode"]} graph): {v["liveness"][:1]}',
+            'liveness.step_budget', f'Config build exceeded the step budget of {budget_for(sc)} traced lines ({sc["mode"]} graph): {v["liveness"][:1]}',
             graph=bad or 'acyclic'))
     elif bad and v['status'] == 'ok':
         res['violations'].append(core.violation('xref.error_expected', f'reference graph has a {bad} reference but the build succeeded', graph=bad))
